@@ -99,15 +99,20 @@ theorem decode_dbKey (kgc : Nat) (k ns d : Bytes) (hk : k.length < 4294967296) (
   have e : Keys.dbKey kgc k ns d =
       (u16be (KeySpace.keyGroup kgc k) ++ [UInt8.ofNat Facts.schemaState]) ++ (u32be k.length ++ (k ++ (nsEnc ns ++ d))) := by
     simp [Keys.dbKey, Keys.subjectKey, nsEnc]
-  have h3 : (u16be (KeySpace.keyGroup kgc k) ++ [UInt8.ofNat Facts.schemaState]).length = 3 := by simp [u16be]
+  have h3 : (u16be (KeySpace.keyGroup kgc k) ++ [UInt8.ofNat Facts.schemaState]).length = Facts.ksDecodeSkip := by
+    simp [u16be]; rfl
+  have h4 : ∀ n, (u32be n).length = Facts.ksDecodeLenBits / 8 := fun n => u32be_length n
+  have hr : ∀ b, readLen b = beNat b := fun b => by simp [readLen, show Facts.ksDecodeBigEndian = 1 from rfl]
   unfold decodeKey
-  simp only []
-  rw [e, List.drop_left' h3, List.take_left' (u32be_length _), List.drop_left' (u32be_length _),
+  simp only [hr]
+  rw [e, List.drop_left' h3, List.take_left' (h4 _), List.drop_left' (h4 _),
     beNat_u32be _ hk, List.drop_left' rfl]
   have hnl : (UInt8.ofNat (ns.length % 256)).toNat = ns.length := by
     simp only [UInt8.toNat_ofNat']; omega
-  simp only [nsEnc, List.cons_append, List.headD_cons, List.drop_succ_cons, List.drop_zero, hnl]
-  rw [List.take_left' rfl, List.drop_left' rfl]
+  have h1 : Facts.ksDecodeNsBits / 8 = 1 := rfl
+  simp only [h1, nsEnc, List.cons_append, List.take_succ_cons, List.take_zero, List.drop_succ_cons, List.drop_zero]
+  have hb : beNat [UInt8.ofNat (ns.length % 256)] = ns.length := by simp [beNat, hnl]
+  rw [hb, List.take_left' rfl, List.drop_left' rfl]
 
 /-- the guard: a 256-byte namespace is stored under the key of the empty namespace (`uint8(len(namespace))`) -/
 theorem ns256_alias (kgc : Nat) (k ns d : Bytes) (h : ns.length = 256) :
